@@ -161,6 +161,9 @@ func (p *Program) instrMods(in ssa.Instruction, inScope func(ssa.Instruction) bo
 	case *ssa.Alloc:
 		out.add("alloc", ModHard)
 		p.zeroInitTargets(x.Type().Underlying().(*types.Pointer).Elem(), out)
+		if n, ok := x.Type().Underlying().(*types.Pointer).Elem().(*types.Named); ok && n.Obj().Pkg() != nil && (n.Obj().Pkg().Path() == "bytes" && n.Obj().Name() == "Buffer" || n.Obj().Pkg().Path() == "strings" && n.Obj().Name() == "Builder") {
+			out.add("BUF_len", ModFresh)
+		}
 	case *ssa.MakeMap:
 		out.add("alloc", ModHard)
 		h, d := p.mapArrays(x.Type().Underlying().(*types.Map))
@@ -355,6 +358,9 @@ func (p *Program) implsOf(it types.Type, m *types.Func) []*ssa.Function {
 func (p *Program) externMods(f *ssa.Function, c *ssa.CallCommon, out ModSet) {
 	name := f.String()
 	switch name {
+	case "(*bytes.Buffer).WriteByte", "(*strings.Builder).WriteByte", "(*bytes.Buffer).WriteRune", "(*strings.Builder).WriteRune",
+		"(*bytes.Buffer).WriteString", "(*strings.Builder).WriteString", "(*bytes.Buffer).Write", "(*strings.Builder).Write":
+		out.add("BUF_len", ModHard)
 	case "errors.As":
 		// writes the target cell
 		if len(c.Args) == 2 {
